@@ -74,6 +74,10 @@ def instrument(ss, log):
 
 def run_segments(ss, splits, log):
     rets = []
+    if any(s == 0.0 for s in splits):
+        # an interruption exactly at t0: TDS.init() called explicitly before the first TDS.run()
+        ss.TDS.config.tf = TF
+        ss.TDS.init()
     for tf in sorted(set(splits)) + [TF]:
         if tf <= 0 or (rets and tf <= ss.TDS.config.tf):
             continue
@@ -120,7 +124,13 @@ def compare(out_bad, ref, got, splits, mode, events):
     on_grid = all(s in ref['t'] for s in splits)
     dx = float(np.max(np.abs(got['xy'] - ref['xy']))) if got['xy'].shape == ref['xy'].shape else np.inf
     if on_grid and mode == 'extend':
-        # no extra step is inserted: only the Jacobian refresh schedule may differ, which is a round-off matter
+        # no extra step is inserted: the time axis is that of the uninterrupted run (gap-free, duplicate-free, from t0 on)
+        if len(t) != len(ref['t']) or not np.array_equal(t, ref['t']):
+            first = next((i for i, (a, b) in enumerate(zip(t, ref['t'])) if a != b), min(len(t), len(ref['t'])))
+            where = 'at_t0' if any(s == 0.0 for s in splits) else 'later'
+            out_bad(f'time_axis_differs_from_uninterrupted_run:{tag}:{where}', f'splits {splits} are step boundaries of the reference, yet '
+                    f'the stored time axis has {len(t)} stamps against {len(ref["t"])}, first difference at #{first}')
+        # only the Jacobian refresh schedule may differ, which is a round-off matter
         if dx > 1e-9:
             out_bad(f'differs_at_step_boundary:{tag}', f'splits {splits} are step boundaries of the reference, final state '
                     f'differs by {dx:.3e}')
@@ -140,7 +150,7 @@ class Extend(Part):
 
     def describe(self, tier):
         return (f'systems {self.sysnames}; split times = first {self.K} step boundaries of the reference + te-eps, te, te+eps per '
-                f'event + off-grid {{0.123, 0.3777}}; all singles, all pairs' + (' (pairs on smib only)' if tier == 'quick' else ''))
+                f'event + off-grid {{0.123, 0.3777}} + t0 itself (explicit TDS.init before the first run); all singles, all pairs' + (' (pairs on smib only)' if tier == 'quick' else ''))
 
     def init_worker(self):
         self.sys, self.cp, self.ev, self.ref = {}, {}, {}, {}
@@ -168,6 +178,10 @@ class Extend(Part):
         out = []
         for name in self.sysnames:
             pts = self.points(name)
+            # interruption exactly at t0 (explicit TDS.init before the first run), alone and followed by a second one
+            out.append(dict(sys=name, splits=[0.0]))
+            for p in pts[:3] + pts[-2:]:
+                out.append(dict(sys=name, splits=[0.0, p]))
             for p in pts:
                 out.append(dict(sys=name, splits=[p]))
             if tier != 'quick' or name == 'smib':
